@@ -18,6 +18,7 @@ func c02Profile() lang.Profile {
 	p.IllTyped = 3
 	p.StrCompare = true
 	p.Moods = true
+	p.ObserveAll = 60
 	p.RareIndexSet = true
 	p.Exclude = knownSet()
 	if p.Exclude["c02.compiled-cannot-call-user-functions"] {
